@@ -9,4 +9,6 @@ def run(tier, seed):
     c04.router_functions(chk)
     c04.router_trust(chk)
     chk.min_obligations = 60
+    chk.standin_on_out_of_reach("native router enumeration", "router.enumerate", {}, always=True,
+                                bound_text="every message tag x sender (absent, unregistered, each client, each device) x 0-2 devices (accepting or not) x 0-2 clients with every BLOB policy")
     return chk.finish()
